@@ -1273,6 +1273,13 @@ func slice(x, lo, hi, step_ Value) (Value, error) {
 			return nil, fmt.Errorf("zero is not a valid slice step")
 		}
 	}
+	// A stride of magnitude >= n selects the same elements as n:
+	// clamping it keeps index arithmetic (i += step) within int.
+	if m := max(n, 1); step > m {
+		step = m
+	} else if step < -m {
+		step = -m
+	}
 
 	// TODO(adonovan): opt: preallocate result array.
 
@@ -1371,22 +1378,21 @@ func asIndex(v Value, len int, result *int) error {
 }
 
 // asSaturatedInt is like AsInt32 but accepts an int of any size,
-// mapping one whose magnitude exceeds half the range of int to the
-// nearest value within it. It is used for slice indices and strides,
-// which are clamped to the length of the sequence in any case.
+// mapping one beyond the range of int to -MaxInt or MaxInt.
+// It is used for slice indices and strides, which slice clamps to
+// the length of the sequence; -MaxInt leaves room for adding a length.
 func asSaturatedInt(v Value) (int, error) {
 	i, ok := v.(Int)
 	if !ok {
 		return AsInt32(v) // (reports the type error)
 	}
-	const limit = math.MaxInt / 2 // leaves room for adding a length
-	if x, ok := i.Int64(); ok && -limit <= x && x <= limit {
+	if x, ok := i.Int64(); ok && int64(int(x)) == x && int(x) != math.MinInt {
 		return int(x), nil
 	}
 	if i.Sign() < 0 {
-		return -limit, nil
+		return -math.MaxInt, nil
 	}
-	return limit, nil
+	return math.MaxInt, nil
 }
 
 // setArgs sets the values of the formal parameters of function fn in
